@@ -30,5 +30,5 @@ Section Emit.
 
   Definition emit (n : nat) (ops : list (qop F)) : string :=
     header ++ "qreg q[" ++ dec n ++ "];" ++ nl ++ "creg c[" ++ dec n ++ "];" ++ nl
-    ++ concat "" (map op_line ops).
+    ++ fold_right append "" (map op_line ops).
 End Emit.
